@@ -71,18 +71,21 @@ def call_strategy():
     })
 
 
-def run_twice(fn, args, what, mutable_desc):
+def run_twice(fn, args, what, mutable_desc, allow=()):
     """Snapshot the arguments, call fn(*args) twice with the same objects, compare snapshots and results."""
     before = [snapshot(a) for a in args]
-    k1, r1 = call(fn, *args, allow=(), what=what)
+    k1, r1 = call(fn, *args, allow=allow, what=what)
     mid = [snapshot(a) for a in args]
     for i, (b, m) in enumerate(zip(before, mid)):
         require(b == m, '%s modified its argument #%d (%s)' % (what, i, mutable_desc[i] if i < len(mutable_desc) else '?'), tag='input-mutated',
                 detail={'arg': i})
-    k2, r2 = call(fn, *args, allow=(), what=what + ' (second call with the same objects)')
+    k2, r2 = call(fn, *args, allow=allow, what=what + ' (second call with the same objects)')
     after = [snapshot(a) for a in args]
     for i, (b, m) in enumerate(zip(before, after)):
         require(b == m, '%s modified its argument #%d on the second call' % (what, i), tag='input-mutated')
+    if k1 == 'exc' or k2 == 'exc':
+        # a documented refusal (e.g. no admissible theta for this sample): both calls must refuse alike
+        return '<refused %s>' % type(r1).__name__ if k1 == 'exc' else r1, '<refused %s>' % type(r2).__name__ if k2 == 'exc' else r2
     return r1, r2
 
 
@@ -168,10 +171,10 @@ def oracle_call(case):
                 m.fit(a)
                 return m.to_dict()
 
-            r1, r2 = run_twice(fit_obs, [A], '%s.fit(%s)' % (fam, kind), ['pseudo-observations'])
+            r1, r2 = run_twice(fit_obs, [A], '%s.fit(%s)' % (fam, kind), ['pseudo-observations'], allow=(ValueError,))
             same_result(r1, r2, fam + '.fit')
         elif name == 'select_copula':
-            r1, r2 = run_twice(lambda a: select_copula(a).to_dict(), [A], 'select_copula(%s)' % kind, ['pseudo-observations'])
+            r1, r2 = run_twice(lambda a: select_copula(a).to_dict(), [A], 'select_copula(%s)' % kind, ['pseudo-observations'], allow=(ValueError,))
             same_result(r1, r2, 'select_copula')
         else:
             m = S.make_copula(fam, theta_from_tau(fam, 0.5))
@@ -231,7 +234,7 @@ def oracle_call(case):
                 v.fit(a)
                 return [[(int(e.L), int(e.R), sorted(int(x) for x in e.D), e.name.name, float(e.theta)) for e in t.edges] for t in v.trees]
 
-            r1, r2 = run_twice(fit_obs, [df], 'VineCopula(%r).fit' % case['vine_type'], ['training table'])
+            r1, r2 = run_twice(fit_obs, [df], 'VineCopula(%r).fit' % case['vine_type'], ['training table'], allow=(ValueError,))
             same_result(r1, r2, 'VineCopula.fit')
         else:
             v = VineCopula(case['vine_type'])
